@@ -57,6 +57,14 @@ pub fn exercise_list(list: &BlockList, t: &mut Tot) {
     t.run("BlockList::duration", || list.duration());
     t.run("BlockList::decoded_len", || list.decoded_len());
     t.run("BlockList::channel_mask", || list.channel_mask().channels().count());
+    if let Some(vc) = list.get::<VorbisComment>() {
+        for f in vc.fields.iter().take(8) {
+            if let Some((_, v)) = f.split_once('=') {
+                t.run("ChannelMask::from_str", || v.parse::<flac_codec::metadata::ChannelMask>().is_ok());
+            }
+        }
+        t.run("VorbisComment::get", || vc.get("WAVEFORMATEXTENSIBLE_CHANNEL_MASK").map(|s| s.len()));
+    }
     t.run("BlockList::misc", || (list.channel_count(), list.sample_rate(), list.bits_per_sample(), list.total_samples(), list.md5().copied()));
     t.run("Streaminfo::duration", || (list.streaminfo().duration(), list.streaminfo().decoded_len()));
     for c in list.get_all::<Cuesheet>() {
@@ -342,6 +350,13 @@ pub fn hostile_line_strategy() -> BoxedStrategy<String> {
         "CATALOG [0-9]{0,140}",
         "FLAGS (PRE|DCP|4CH|SCMS)( PRE)?",
         "[A-Z]{0,8} ?.{0,12}",
+        // quoting oddities
+        "(CATALOG|ISRC|TITLE|FILE) \"{0,3}[A-Z0-9]{0,13}\"{0,3}",
+        Just("CATALOG \"".to_string()),
+        Just("ISRC \"".to_string()),
+        Just("CATALOG \"\"".to_string()),
+        Just("ISRC \"\"".to_string()),
+        Just("CATALOG '".to_string()),
         Just("INDEX 01 00:00:00".to_string()),
         Just("INDEX 00 00:00:00".to_string()),
         Just("INDEX 255 99:59:74".to_string()),
